@@ -129,7 +129,7 @@ class Scripted:
             self.sizes.append(n)
             v = self.prefix[self.i]
             self.i += 1
-            return v.to_bytes(n, "big") if n else b""
+            return (v % (1 << (8 * n))).to_bytes(n, "big") if n else b""
         if self.stop:
             raise SweepStop()
         self.sizes.append(n)
